@@ -40,10 +40,12 @@ def check (st : St) (op obs : String) : St × String :=
     let ws := words obs
     let status := field ws "status"
     let hit := field ws "target" == "hit"
-    let passthrough := path.startsWith "/pt/"
-    let always := path.startsWith "/fw/"
+    -- expressions apply to the path, not to the query string
+    let pq := ((path.splitOn "?").headD path)
+    let passthrough := pq.startsWith "/pt/" || pq.endsWith ".png"
+    let always := pq.startsWith "/fw/" || pq.endsWith ".fwd"
     let readM := method == "GET" || method == "HEAD"
-    let health := method == "GET" && path == "/litefs/health"
+    let health := method == "GET" && pq == "/litefs/health"
     let want := cookieTXID cookie
     if passthrough || health then (st, "ok") else
     if readM && !always then
